@@ -128,6 +128,10 @@ func (wg *WeightedAuthorizationModelGraph) AssignWeights() error {
 	ancestorPath := make([]*WeightedAuthorizationModelEdge, 0)
 	tupleCycleDependencies := make(map[string][]*WeightedAuthorizationModelEdge)
 
+	if wg.hasRewriteOnlyCycle() {
+		return ErrModelCycle
+	}
+
 	if handled, err := wg.verifAssignWeightsForced(); handled {
 		return err
 	}
@@ -148,6 +152,52 @@ func (wg *WeightedAuthorizationModelGraph) AssignWeights() error {
 		}
 	}
 	return nil
+}
+
+// hasRewriteOnlyCycle reports whether some cycle can be traversed without reading any tuple,
+// i.e. it only consists of rewrite and computed edges. Such a model can never be evaluated,
+// whatever else it contains, and the answer must not depend on where the weight assignment starts.
+func (wg *WeightedAuthorizationModelGraph) hasRewriteOnlyCycle() bool {
+	const (
+		inProgress = 1
+		done       = 2
+	)
+
+	state := make(map[string]int, len(wg.nodes))
+
+	var visit func(nodeID string) bool
+	visit = func(nodeID string) bool {
+		state[nodeID] = inProgress
+
+		for _, edge := range wg.edges[nodeID] {
+			if edge.edgeType != RewriteEdge && edge.edgeType != ComputedEdge {
+				continue
+			}
+
+			switch state[edge.to.uniqueLabel] {
+			case inProgress:
+				return true
+			case done:
+				continue
+			}
+
+			if visit(edge.to.uniqueLabel) {
+				return true
+			}
+		}
+
+		state[nodeID] = done
+
+		return false
+	}
+
+	for nodeID := range wg.nodes {
+		if state[nodeID] == 0 && visit(nodeID) {
+			return true
+		}
+	}
+
+	return false
 }
 
 func (wg *WeightedAuthorizationModelGraph) calculateEdgeWildcards(edge *WeightedAuthorizationModelEdge) {
